@@ -172,17 +172,17 @@ theorem rotation_surj {n off : Nat} (hoff : off < n) (P : Nat → Prop)
 theorem getStream_spec (sh : Shared) (hn : 0 < sh.words.length) :
     (∃ id, id < 64 * sh.words.length ∧ bitAt sh.words id = false ∧
        getStream sh = ({ words := setBit sh.words id, inuse := sh.inuse + 1,
-                         offset := (sh.offset + 1) % sh.words.length }, some (.stream id true)))
+                         offset := nextOffset sh.words.length sh.offset }, some (.stream id true)))
     ∨ ((∀ id, id < 64 * sh.words.length → bitAt sh.words id = true) ∧
-       getStream sh = ({ sh with offset := (sh.offset + 1) % sh.words.length }, some (.stream 0 false))) := by
-  have hoff : (sh.offset + 1) % sh.words.length < sh.words.length := Nat.mod_lt _ hn
-  have key := scan_spec { sh with offset := (sh.offset + 1) % sh.words.length } ((sh.offset + 1) % sh.words.length)
+       getStream sh = ({ sh with offset := nextOffset sh.words.length sh.offset }, some (.stream 0 false))) := by
+  have hoff : nextOffset sh.words.length sh.offset < sh.words.length := Nat.mod_lt _ hn
+  have key := scan_spec { sh with offset := nextOffset sh.words.length sh.offset } (nextOffset sh.words.length sh.offset)
     hn sh.words.length 0 (sh.words.length + 2) (by simp) hn (by simp) (by intro i' h; omega)
   have hrun : getStream sh = runThread (sh.words.length + 2)
-      { sh with offset := (sh.offset + 1) % sh.words.length } (.g4 ((sh.offset + 1) % sh.words.length) 0) := by
+      { sh with offset := nextOffset sh.words.length sh.offset } (.g4 (nextOffset sh.words.length sh.offset) 0) := by
     have e1 : tstep sh .g1 = (sh, .g2 sh.offset, none) := by simp only [tstep]
-    have e2 : tstep sh (.g2 sh.offset) = ({ sh with offset := (sh.offset + 1) % sh.words.length },
-        .g4 ((sh.offset + 1) % sh.words.length) 0, none) := by simp only [tstep, ↓reduceIte]
+    have e2 : tstep sh (.g2 sh.offset) = ({ sh with offset := nextOffset sh.words.length sh.offset },
+        .g4 (nextOffset sh.words.length sh.offset) 0, none) := by simp only [tstep, ↓reduceIte]
     simp only [getStream, seqOp, startPC]
     rw [runThread_cont e1, runThread_cont e2]
   rw [hrun]
